@@ -962,12 +962,19 @@ fn dump<'tcx>(tcx: TyCtxt<'tcx>) -> J {
                         }
                     }
                     let mut inh = vec![];
+                    let mut ovr = vec![];
                     for it in tcx.associated_items(tdid).in_definition_order() {
-                        if matches!(it.kind, ty::AssocKind::Fn { .. }) && it.defaultness(tcx).has_value() && !overridden.contains(&it.def_id) {
-                            inh.push(J::Str(it.name().to_string()));
+                        if matches!(it.kind, ty::AssocKind::Fn { .. }) && it.defaultness(tcx).has_value() {
+                            if overridden.contains(&it.def_id) {
+                                ovr.push(J::Str(it.name().to_string()));
+                            } else {
+                                inh.push(J::Str(it.name().to_string()));
+                            }
                         }
                     }
                     o.set("inherited", J::Arr(inh));
+                    // provided methods this impl DOES override: the trait's documented default semantics is their specification
+                    o.set("overridden", J::Arr(ovr));
                 }
                 impls.push(o);
             }
